@@ -25,7 +25,7 @@ func (c *Ctx) lockControls() {
 
 func runC04(c *Ctx) {
 	r := c.R
-	r.Explanation = "Decides the race-freedom clause of C04 as a pairwise consistent-lock-set discipline over every field of Broker, graph and nodeUsage (every write/access pair shares a lock held for writing at the write), immutability after publication of registeredPipeline and linkedNode, confinement of the sync.Map to graphMap's methods, and lock pairing in the root package. It does not decide the linearizability / delivery-count clause (a statement about histories of sync.Map under real interleavings). C04.section: all broker-state accesses of a mutating call lie in one critical section of Broker.lock (check-then-act atomicity). C04.copy: no second holder of the pipeline set is written outside Broker.lock:W (a reader-side cache can overwrite a newer invalidation)."
+	r.Explanation = "Decides the race-freedom clause of C04 as a pairwise consistent-lock-set discipline over every field of Broker, graph and nodeUsage (every write/access pair shares a lock held for writing at the write), immutability after publication of registeredPipeline and linkedNode, confinement of the sync.Map to graphMap's methods, and lock pairing in the root package. It does not decide the linearizability / delivery-count clause (a statement about histories of sync.Map under real interleavings). C04.section: all broker-state accesses of a mutating call lie in one critical section of Broker.lock (check-then-act atomicity). C04.copy: no second holder of the pipeline set is written outside Broker.lock:W (a reader-side cache can overwrite a newer invalidation). C04.self/order/open: the lock-order rules of C12 over the root package (a re-acquired RWMutex wedges all callers)."
 	r.NotDecided = []string{"linearizability of registration for Send and per-pipeline delivery counts", "absence of panics"}
 	c.lockControls()
 
@@ -104,4 +104,22 @@ func runC04(c *Ctx) {
 
 	c.pairingRule("C04.pairing", func(fn *ssa.Function) bool { return PkgPathOf(fn) == PkgRoot }, false)
 	r.Floor("C04.pairing", 10)
+
+	// concurrent callers can only quiesce if no broker call re-acquires a lock it may hold (a second
+	// RLock of an RWMutex blocks behind a waiting writer, which waits for the first: every later call
+	// queues behind them) and the locks of the package are acquired in one order: the lock-order
+	// rules of C12, over the root package, under C04's name.
+	var e1Done, e1OK bool
+	e1 := func() (bool, string) {
+		if !e1Done {
+			e1Done = true
+			e1OK = c.ruleGatedPass("C04.e1-pass") && c.ruleGatedNoGate("C04.e1-nogate")
+		}
+		if e1OK {
+			return true, "openGate only sends a payload proven not Gateable, and Process returns a non-Gateable event before locking"
+		}
+		return false, "C11.pass / C11.nogate do not both hold"
+	}
+	c.lockOrderRules("C04", func(fn *ssa.Function) bool { return PkgPathOf(fn) == PkgRoot }, []string{"eventlogger.Broker.lock"}, []string{PkgRoot}, false, e1)
+	r.Floor("C04.self", 10)
 }
